@@ -27,7 +27,7 @@ RULE = ('per run: system class in {Kronecker of SPD factors, sum of 1-4 such ter
         '||E||_F=0.3}; order 2..5; mode sizes 2..12 with at most 2500 unknowns (dense oracle); rhs rank 1..4; eps=10^-k, k in 3..10; '
         'configuration = preconditioner {None,c,r} x max_full {0,500} x local_solver {GMRES,BiCGSTAB} x x0 {None, random rank 1, '
         'random rank 3} (+ band_diagonal {-1,1} for the Laplacian class); global torch PRNG seeded per run; primary SVD failures on '
-        '25% of runs; distinct by (class, order, eps decade, preconditioner, max_full, local solver, x0 kind, band, fault kind)')
+        '25% of runs; 10-12% of runs are preceded in the same process by the same routine on other data of the same structure (history independence); distinct by (class, order, eps decade, preconditioner, max_full, local solver, x0 kind, band, fault kind)')
 ASSUMPTIONS = ['single-threaded BLAS', 'oracle constant C=10 on the dense residual; generated systems have condition number <= ~500',
                'A, x, b densified by the checker\'s own contraction']
 REAL = ['torchtt.solvers.amen_solve (_amen_solve_python, _LinearOp), _iterative_solvers (GMRES, BiCGSTAB) from the working tree', 'torch']
@@ -94,6 +94,9 @@ def gen_case(rng):
         p['plan'] = {'P': [], 'Q': [], 'all': True, 'kind': 'all'}
     else:
         p['plan'] = None
+    # history dimension: the checked call is preceded, in the same process, by the same routine on other data of the same
+    # structure (values from the seed below)
+    p['prelude'] = rng.getrandbits(31) if rng.random() < 0.1 else None
     return p
 
 
@@ -186,7 +189,22 @@ def exec_case(p, res):
                     return solve(p, A, b, x0)
                 p = dict(p, plan=svdfault.resolve_fractions(p['plan'], _count))
                 seams.seed_global(p['tseed'])
+            if p.get('prelude') is not None:
+                # history dimension: an earlier solve of a system of the same structure in this process
+                pp = dict(p, vseed=p['prelude'], plan=None, prelude=None)
+                try:
+                    A2, b2, x02 = build(pp)
+                    seams.seed_global(p['tseed'] ^ 0x5a5a5a)
+                    solve(pp, A2, b2, x02)
+                except StepTimeout:
+                    raise
+                except Exception:
+                    core.bump(stats, 'history.prelude_raised')
+                core.bump(stats, 'probe.call_with_history')
+                seams.seed_global(p['tseed'])
             x, exc, f = svdfault.run_with_plan(lambda: solve(p, A, b, x0), p['plan'] or {})
+    except StepTimeout as e_:
+        x, exc, f = None, e_, seams.SVDFaults()
     finally:
         _h.STEP_TIMEOUT = old_to
     if isinstance(exc, StepTimeout):
@@ -253,6 +271,8 @@ def shrink_candidates(desc):
     p = desc['case']
     if p.get('plan'):
         yield {'case': dict(p, plan=None)}
+    if p.get('prelude') is not None:
+        yield {'case': dict(p, prelude=None)}
     if p['x0'] != 'none':
         yield {'case': dict(p, x0='none')}
     if p['prec'] is not None:
